@@ -83,7 +83,11 @@ def gen_history(st):
         # histories stay inside the region where it is exact, so that the C negativize / positivize / max / path routines get exercised
         pen_choice = rng.choice([None, 0.0, 1.0])
         win_choice = None
-    setup = {"series1": s1, "series2": s2, "gamma": rng.choice([0.5, 1.0, 2.0]), "tau": rng.choice([0.0, 0.3, 0.6, 0.9]),
+    gamma_choice = rng.choice([0.5, 1.0, 1.0, 2.0, 0.05, 10.0])
+    tau_choice = rng.choice([0.0, 0.3, 0.6, 0.9])
+    # (tau exactly ON an affinity value is not generated: whether exp(-gamma*d^2) < tau holds there is decided by the last
+    #  bit of exp(), which differs between math.exp, np.exp and the C library - a rounding-width neighbourhood no oracle can pin)
+    setup = {"series1": s1, "series2": s2, "gamma": gamma_choice, "tau": tau_choice,
              "delta": rng.choice([0.0, -0.5, -1.0, -2.0]), "delta_factor": rng.choice([1.0, 0.5, 0.9]),
              "penalty": pen_choice, "window": win_choice,
              "only_triu": rng.choice([None, None, False, True]) if selfcmp else rng.choice([None, None, False, l1 == (len(s2)) and rng.below(2) == 0]),
